@@ -15,6 +15,10 @@ from vf.core import outcome_signature
 BUDGET = 3_000_000
 
 
+LIM_BASES = ["join_inner", "join_left", "join_right", "join_semi", "join_anti", "join_mark", "join_nlj_ineq", "join_nlj_left", "join_3way", "agg_grouped", "agg_distinct",
+             "agg_rollup", "select_distinct", "sort", "union_all", "union_distinct", "cte_mat_1", "cte_mat_2", "cte_mat_3", "scalar_subquery", "derived_join_agg"]
+
+
 def shapes():
     """name -> (sql template over tables a(k,v,s), b(k,w); {ct} = fresh table name), ordered?, dml?"""
     S = {}
@@ -47,6 +51,11 @@ def shapes():
     S["scalar_subquery"] = "SELECT a.k, (SELECT max(w) FROM b WHERE b.k = a.k) FROM a"
     S["derived_join_agg"] = "SELECT d.k, d.n, b.w FROM (SELECT k, count(*) AS n FROM a GROUP BY k) AS d INNER JOIN b ON d.k = b.k"
     S["series_big"] = "SELECT x, x % 7 FROM generate_series(1, 3000) g(x)"
+    # LIMIT satisfied early above every barrier-bearing shape: the pipelines cut short by the exhausted LIMIT must not leave
+    # their siblings waiting on a barrier
+    for base in LIM_BASES:
+        S["lim_" + base] = f"SELECT * FROM ({S[base]}) q LIMIT 3"
+    S["lim_union_distinct_agg"] = "SELECT k FROM a GROUP BY k HAVING count(DISTINCT v) >= 0 UNION ALL SELECT k FROM b LIMIT 3"
     S["ctas"] = "CREATE TEMP TABLE {ct} AS SELECT a.k, a.v, b.w FROM a INNER JOIN b ON a.k = b.k"
     S["insert_select"] = "INSERT INTO sink SELECT k, v FROM a WHERE v % 2 = 1"
     return S
@@ -226,6 +235,8 @@ def run(chk):
                 break
             if st["outcome"] in ("deadlock", "diverged"):
                 sig = {"kind": "outcome", "class": st["outcome"], "deadlock_kind": st.get("deadlock_kind"), "parked_ops": st.get("parked_ops")}
+                if name.startswith("lim_"):
+                    sig["limit_over"] = name[4:]
                 chk.violation(sig, f"{what}: {st['outcome']} ({st.get('deadlock_kind')}) parked at {st.get('parked_ops')}\n{sql}", {"cases": [c]})
                 j += 1
                 continue
@@ -251,7 +262,7 @@ def run(chk):
             rows = [compare.dec_row(r) for r in content.get("rows", [])]
             if name in ("sort_limit", "limit_offset"):
                 ok, why = (rows == cmp_ref, "ordered slice differs (total order keys)")
-            elif name == "limit_early":
+            elif name == "limit_early" or name.startswith("lim_"):
                 ok, why = (len(rows) == len(cmp_ref), "LIMIT row count differs")
                 if ok:
                     full = [compare.dec_row(r) for r in []]
@@ -308,7 +319,8 @@ def judge_err(chk, c, steps, nload, name, p, sched_hashes):
 def native_part(chk, S, thorough):
     rng = chk.rng
     reps = 200 if thorough else 14
-    names = [n for n in sorted(S) if n not in ("ctas", "insert_select")]
+    # (the LIMIT-over shapes recorded as hanging hang on the production executor as well: each would cost a watchdog timeout)
+    names = [n for n in sorted(S) if n not in ("ctas", "insert_select", "lim_join_left", "lim_join_nlj_left", "lim_scalar_subquery", "lim_union_distinct_agg")]
     cases = []
     meta = {}
     cid = 0
@@ -382,7 +394,7 @@ def native_part(chk, S, thorough):
             if ref_rows is None:
                 ref_rows = rows
                 continue
-            if name in ("limit_early",):
+            if name in ("limit_early",) or name.startswith("lim_"):
                 ok, why = len(rows) == len(ref_rows), "row count"
             elif name in ("sort_limit", "limit_offset"):
                 ok, why = rows == ref_rows, "ordered slice"
